@@ -108,16 +108,25 @@ def dotted(node):
 
 
 class Repo(object):
-    def __init__(self, root=None):
+    def __init__(self, root=None, overrides=None):
+        """overrides: {relative path: text} replaces file contents in memory
+        (used by the self-test to analyse mutants of the current tree)"""
         self.root = root or REPO
+        self.overrides = overrides or {}
         self.modules = {}
         self.files_read = []
         for m in MODULES:
             p = os.path.join(self.root, PKG, m + ".py")
-            if not os.path.exists(p):
-                raise AnalysisError("source file vanished: %s" % p)
-            with open(p, "r", encoding="utf-8") as f:
-                text = f.read()
+            rel = os.path.join(PKG, m + ".py")
+            if rel in self.overrides:
+                text = self.overrides[rel]
+            else:
+                if not os.path.exists(p):
+                    raise AnalysisError("source file vanished: %s" % p)
+                with open(p, "r", encoding="utf-8") as f:
+                    text = f.read()
+            if True:
+                pass
             try:
                 self.modules[m] = ModuleInfo(m, os.path.join(PKG, m + ".py"), text)
             except SyntaxError as e:
@@ -128,8 +137,12 @@ class Repo(object):
         if os.path.isdir(sd):
             for fn in sorted(os.listdir(sd)):
                 if fn.endswith(".sql"):
-                    with open(os.path.join(sd, fn), "r", encoding="utf-8") as f:
-                        self.schema_texts[fn] = f.read()
+                    rel = os.path.join(SCHEMA_DIR, fn)
+                    if rel in self.overrides:
+                        self.schema_texts[fn] = self.overrides[rel]
+                    else:
+                        with open(os.path.join(sd, fn), "r", encoding="utf-8") as f:
+                            self.schema_texts[fn] = f.read()
                     self.files_read.append(os.path.join(SCHEMA_DIR, fn))
         self.protocol_doc = None
         pd = os.path.join(self.root, PROTOCOL_DOC)
